@@ -241,7 +241,9 @@ func decodeFloat(buf []byte) ([]byte, float64, error) {
 }
 
 func encodeFloat(x float64) []byte {
-	if x == 0 || math.IsNaN(x) || math.IsInf(x, 0) {
+	if math.Abs(x) < 1e-300 || math.IsNaN(x) || math.IsInf(x, 0) {
+		// The reader maps numbers this small to zero.  Without this case,
+		// math.Pow10 underflows below and the digit loop never terminates.
 		return []byte{0x0f}
 	}
 
